@@ -199,6 +199,10 @@ class Tiny:
                         return Buf(0, sum(len(x) for x in parts))  # only the length of a concatenation is modelled
                     if isinstance(parts, list):
                         return ("joined", parts)
+                if isinstance(recv, str) and e.func.attr in ("startswith", "endswith", "lower", "upper", "strip", "lstrip", "rstrip", "isdigit") and not e.keywords:
+                    sargs = [self.ev(a) for a in e.args]
+                    if all(isinstance(x, (str, int)) and not isinstance(x, bool) for x in sargs):
+                        return getattr(recv, e.func.attr)(*sargs)  # a pure function of the model's own name constants
                 if isinstance(recv, Sym) and e.func.attr in recv.methods:
                     args = [self.ev(a) for a in e.args]
                     kwargs = {k.arg: self.ev(k.value) for k in e.keywords if k.arg is not None}
@@ -331,10 +335,11 @@ class Tiny:
             raise AnalysisError("tiny: inlining too deep")
         a = node.args
         names = [x.arg for x in a.posonlyargs + a.args]
-        if not names or a.vararg or a.kwarg:
+        if a.vararg or a.kwarg:
             raise AnalysisError(f"tiny: cannot inline {node.name}")
         env = {k: v for k, v in self.env.items() if k == "self" or k.startswith("self.") or k.startswith("self[")}
-        params = names[1:]
+        static = any(isinstance(d, ast.Name) and d.id == "staticmethod" for d in node.decorator_list)
+        params = names if static else names[1:]
         if len(args) > len(params):
             raise TinyRaise("TypeError")
         for n_, v in zip(params, args):
